@@ -130,7 +130,7 @@ def correspondence(ctx, specs, results, tag):
     for s in range(0, len(specs), step):
         body = ';\n'.join(coq_case(sp, rs) for sp, rs in
                           zip(specs[s:s + step], results[s:s + step]))
-        shards.append(HEADER + 'Definition cases := [\n%s\n].\n'
+        shards.append(HEADER + 'Definition cases : list (outcome str * outcome str) := [\n%s\n].\n'
                       'Eval vm_compute in mism 0 cases.\n' % body)
     outs = vlib.run_cases_sharded('c19_%s' % tag, shards)
     bad = []
